@@ -2,7 +2,9 @@
 against the residue template it was built from - bond length to each bonded atom (tolerance 0.15 A), bond angles at
 the parent (15 degrees), and no coincidence with another atom of the residue (0.3 A).
 Inputs: every standard residue type in every chain position (3-residue fragments of tests/data/1AFS.pdb), a chain with
-an internal gap, default options and --nodebump --noopt, PARSE and AMBER.
+an internal gap, default options and --nodebump --noopt, PARSE and AMBER; and inputs that already carry SOME of the
+hydrogens of every XH3 group (each non-empty proper subset of the three template slots), so that the code paths
+that complete a partly protonated group are measured too.
 usage: python -m bounded.c05_geometry run <prop> <tier> <seed>"""
 import json
 import math
@@ -69,13 +71,61 @@ def measure(biomol):
     return n, probs
 
 
+def _pdb_line(serial, a):
+    name = a.name if len(a.name) == 4 else f" {a.name:<3s}"
+    return (f"ATOM  {serial:5d} {name} {a.res_name:>3s} A{a.res_seq:4d}    {a.x:8.3f}{a.y:8.3f}{a.z:8.3f}"
+            f"  1.00  0.00\n")
+
+
+def _partial(pl, text, keep, argv):
+    """Protonate text, then feed the result back keeping, of every XH3 group, only the hydrogens in template
+    slots `keep` (1-based, template bond order)."""
+    r = pl.run(text, ["--ff=PARSE", "--nodebump", "--noopt"])
+    if not r["ok"]:
+        return None
+    drop = set()
+    for res in r["biomolecule"].residues:
+        ref = getattr(res, "reference", None)
+        if ref is None:
+            continue
+        for a in res.atoms:
+            if a.name.startswith("H"):
+                continue
+            hs = [b for b in a.bonds if b.name.startswith("H") and b.residue is res]
+            if len(hs) != 3:
+                continue
+            ta = ref.map.get(a.name)
+            order = [b for b in (ta.bonds if ta is not None else []) if b in [h.name for h in hs]]
+            order += sorted(h.name for h in hs if h.name not in order)
+            for slot, hname in enumerate(order, 1):
+                if slot not in keep:
+                    drop.add((res.res_seq, hname))
+    lines, serial = [], 1
+    for res in r["biomolecule"].residues:
+        for a in res.atoms:
+            if (res.res_seq, a.name) in drop:
+                continue
+            lines.append(_pdb_line(serial, a))
+            serial += 1
+    lines.append("TER\nEND\n")
+    return "".join(lines)
+
+
 def _case(task):
     kind, resname, pos, argv = task
     from tables import pipeline as pl
 
     pdb = os.path.join(pl.repo_root(), "tests", "data", "1AFS.pdb")
     res = pl.residues_of(pdb)
-    if kind == "frag":
+    if kind.startswith("partial"):
+        w = pl.find_window(res, resname, POS[pos])
+        if w is None:
+            return task, 0, []
+        keep = tuple(int(c) for c in kind.split(":")[1])
+        text = _partial(pl, pl.fragment(res, *w), keep, argv)
+        if text is None:
+            return task, 0, []
+    elif kind == "frag":
         w = pl.find_window(res, resname, POS[pos])
         if w is None:
             return task, 0, []
@@ -112,13 +162,17 @@ def run(prop, tier, seed):
     for rn in ("LEU", "ALA", "VAL", "LYS"):
         tasks.append(("gap", rn, "mid", ["--ff=AMBER"]))
         tasks.append(("gap", rn, "mid", ["--ff=PARSE", "--nodebump", "--noopt"]))
+    for rn in ("ALA", "VAL", "LEU", "ILE", "THR", "MET", "LYS"):
+        for keep in ("1", "2", "3", "12", "13", "23"):
+            for p in (("nterm", "mid") if tier == "thorough" or rn in ("ALA", "LYS") else ("mid",)):
+                tasks.append((f"partial:{keep}", rn, p, ["--ff=PARSE", "--nodebump", "--noopt"]))
     with mp.get_context("fork").Pool(min(16, os.cpu_count() or 4)) as pool:
         res = pool.map(_case, tasks, chunksize=2)
     natoms = sum(n for _, n, _ in res)
     bad = [(t, p) for t, _, p in res if p]
     out = {"name": "c05_geometry", "evaluations": natoms, "distinct_nontrivial": len([1 for _, n, _ in res if n]),
            "violations": [], "undecided": [], "errors": [],
-           "bound": f"{len(tasks)} pipeline runs (20 residue types x 3 positions, gap chains, two option sets), {natoms} added atoms",
+           "bound": f"{len(tasks)} pipeline runs (20 residue types x 3 positions, gap chains, partly protonated XH3 groups, two option sets), {natoms} added atoms",
            "summary": f"{natoms} added atoms in {len(tasks)} runs measured against their templates, "
                       f"{sum(len(p) for _, p in bad)} deviations beyond 0.15 A / 15 deg",
            "assumptions": ["B: numeric exploration floor for C05 on shipped fragments (never counted as proved)"]}
